@@ -6,8 +6,9 @@
     test only when completing and only for literals with a transition, ...); [Fixed] is the intermediate template with
     only the stop-test repair; [Pinned] is the template before, which violates the first half of the property
     ([C12_refuted_shorter_value], [C12_pinned_known_class]). *)
-From CG Require Import Base.Prelude Model.Dfa Model.Glob Model.BashSem Model.ChainTables.
-From CG Require Import Proofs.GlobFacts Proofs.SubwordFacts Proofs.C12Proofs Proofs.C12Chain Proofs.C12Pinned.
+From CG Require Import Base.Prelude Spec.Meaning Proofs.StripFacts.
+From CG Require Import Model.Dfa Model.Glob Model.BashSem Model.ChainTables.
+From CG Require Import Proofs.GlobFacts Proofs.SubwordFacts Proofs.C12Proofs Proofs.C12Chain Proofs.C12Pinned Proofs.C12Strip.
 
 (** (a), on ANY within-word tables: in a state [s] where the typed rest [v] is the text of a literal that has a
     transition (to [to]) and [to] is an accepting state of the within-word automaton ([acc]; /repo HEAD checks it since
@@ -131,6 +132,52 @@ Check C12_chain_partial_offers :
       run_from Repaired 0 (chain_alltables lits ipre next) e [] (pre ++ p)
       = Ok (mkresult 0 (map (append pre) (filter (String.prefix p) (values lits ipre))) []).
 Print Assumptions C12_chain_partial_offers.
+
+(** (b) for ANY COMP_WORDBREAKS without glob characters -- bash's default value included ([breaks_ok] holds for it:
+    [ex_C12_default_wordbreaks]) --: the reply is the extending values with the typed word removed up to its last
+    word-break character ([Meaning.strip]: for `--opt=ab` and the default value, the part after `=`).  The typed word
+    must be glob-free here because `${prefix%$shortest_suffix}` and `${matches[@]#$superfluous_prefix}` take it as a
+    pattern. *)
+Theorem C12_chain_partial_offers_wordbreaks :
+  forall lits ipre pre next,
+    nthN lits ipre = Some pre ->
+    (forall l, In l lits -> plain l = true) ->
+    (forall l, In l lits -> printable_str l = true) ->
+    (forall l, In l lits -> l <> EmptyString) ->
+    sorted_len lits ->
+    forall e p,
+      e_ignore_case e = false -> breaks_ok (e_wordbreaks e) = true ->
+      plain p = true -> printable_str p = true ->
+      (exists v, is_value lits pre v /\ String.prefix p v = true /\ p <> v) ->
+      run_from Repaired 0 (chain_alltables lits ipre next) e [] (pre ++ p)
+      = Ok (mkresult 0 (map (Meaning.strip (e_wordbreaks e) (pre ++ p))
+                            (map (append pre) (filter (String.prefix p) (values lits ipre)))) []).
+Proof.
+  intros lits ipre pre next Hpre Hpl Hpr Hne Hs e p.
+  apply (chain_partial_offers_wordbreaks lits ipre pre next Hpre Repaired); try assumption. discriminate.
+Qed.
+Check C12_chain_partial_offers_wordbreaks :
+  forall lits ipre pre next,
+    nthN lits ipre = Some pre ->
+    (forall l, In l lits -> plain l = true) ->
+    (forall l, In l lits -> printable_str l = true) ->
+    (forall l, In l lits -> l <> EmptyString) ->
+    sorted_len lits ->
+    forall e p,
+      e_ignore_case e = false -> breaks_ok (e_wordbreaks e) = true ->
+      plain p = true -> printable_str p = true ->
+      (exists v, is_value lits pre v /\ String.prefix p v = true /\ p <> v) ->
+      run_from Repaired 0 (chain_alltables lits ipre next) e [] (pre ++ p)
+      = Ok (mkresult 0 (map (Meaning.strip (e_wordbreaks e) (pre ++ p))
+                            (map (append pre) (filter (String.prefix p) (values lits ipre)))) []).
+Print Assumptions C12_chain_partial_offers_wordbreaks.
+
+Example ex_C12_default_wordbreaks :
+  breaks_ok default_wordbreaks = true
+  /\ run_from Repaired 0 (chain_alltables ["--opt="; "abcd"; "abc"; "a"] 0 "next") (mkenv default_wordbreaks [] false) [] "--opt=ab"
+     = Ok (mkresult 0 ["abcd"; "abc"] []).
+Proof. split; vm_compute; reflexivity. Qed.
+Print Assumptions ex_C12_default_wordbreaks.
 
 (** The same two statements for every variant with the repaired stop test (for [Fixed]: glob-free literals). *)
 Theorem C12_chain_any_repaired_variant :
